@@ -104,6 +104,37 @@ pub fn canon(v: &Value, root: &Value, stack: &mut Vec<String>, fuel: &mut usize)
             if let Some(Value::Array(req)) = m.get_mut("required") {
                 req.sort_by_key(|x| x.to_string());
             }
+            // whether a property whose type admits null / undefined is listed under `required` (and keeps its null branch)
+            // depends on whether the printer sees the nullable type in place or behind a $ref; the statement's conventions
+            // leave the absent-key case of such a property open, so the two spellings say the same thing
+            if let Some(Value::Object(props)) = m.get("properties").cloned() {
+                fn strip_null(x: &Value) -> Option<Value> {
+                    if x.get("type") == Some(&json!("null")) {
+                        return Some(json!({"not": {}}));
+                    }
+                    if let Some(Value::Array(ms)) = x.get("anyOf") {
+                        if x.as_object().map(|o| o.len()) == Some(1) && ms.iter().any(|y| y.get("type") == Some(&json!("null"))) {
+                            let mut rest: Vec<Value> = ms.iter().filter(|y| y.get("type") != Some(&json!("null"))).cloned().collect();
+                            return Some(if rest.len() == 1 { rest.pop().unwrap() } else { json!({"anyOf": rest}) });
+                        }
+                    }
+                    None
+                }
+                let mut req: Vec<Value> = m.get("required").and_then(|r| r.as_array()).cloned().unwrap_or_default();
+                let mut newprops = props.clone();
+                for (k, ps) in &props {
+                    if let Some(stripped) = strip_null(ps) {
+                        newprops.insert(k.clone(), stripped);
+                        req.retain(|x| x.as_str() != Some(k.as_str()));
+                    }
+                }
+                m.insert("properties".into(), Value::Object(newprops));
+                if req.is_empty() {
+                    m.remove("required");
+                } else {
+                    m.insert("required".into(), Value::Array(req));
+                }
+            }
             // an intersection of closed object schemas without index signatures says what the one merged object says (which
             // of the two the compiler prints depends on how the members were spelled)
             if m.len() == 1 {
